@@ -128,6 +128,88 @@ def expected_subset(d, keep):
     return out
 
 
+# ---- topologies whose atom numbering does not follow the residues (an atom added to an earlier residue): d plus order[k] = flattened
+# position of the atom that gets index k; bonds of d are over the indices
+def gen_itop(rng, pdb_safe=False):
+    d = gen_top(rng, pdb_safe)
+    n = n_atoms(d)
+    order = list(range(n))
+    mode = rng.choice(["identity", "shuffle", "late", "late", "swap"])
+    if mode == "shuffle":
+        rng.shuffle(order)
+    elif mode == "late" and n > 1:          # a few atoms are added afterwards to residues that exist already (hydrogens, virtual sites)
+        late = sorted(rng.sample(range(n), rng.randrange(1, max(2, n // 2))))
+        order = [i for i in order if i not in late] + late
+    elif mode == "swap" and n > 1:
+        i, j = rng.sample(range(n), 2)
+        order[i], order[j] = order[j], order[i]
+    return dict(d=d, order=order)
+
+
+def build_i(md, it):
+    d = it["d"]
+    top = md.Topology()
+    tys = {None: None, "Single": md.core.topology.Single, "Double": md.core.topology.Double, "Triple": md.core.topology.Triple,
+           "Aromatic": md.core.topology.Aromatic, "Amide": md.core.topology.Amide}
+    flat = []
+    for c in d["chains"]:
+        ch = top.add_chain(c["id"])
+        for r in c["res"]:
+            rr = top.add_residue(r["name"], ch, r["resSeq"], r["seg"])
+            flat.extend((rr, a) for a in r["atoms"])
+    atoms = []
+    for pos in it["order"]:
+        rr, (an, el, sr) = flat[pos]
+        atoms.append(top.add_atom(an, md.element.get_by_symbol(el), rr, serial=sr))
+    for (i, j, ty, order) in d["bonds"]:
+        top.add_bond(atoms[i], atoms[j], type=tys[ty], order=order)
+    return top
+
+
+def _ienc(cids, res, atoms, bonds, btype=True):
+    cs = ",".join("-" if c is None else c for c in cids) if cids else "="
+    rs = ";".join("%s~%d~%s~%d" % (n, q, sg or "-", c) for (n, q, sg, c) in res) if res else "="
+    at = ",".join("%s^%s^%s^%d" % (n, e, "-" if sr is None else sr, r) for (n, e, sr, r) in atoms) if atoms else "="
+    bs = ",".join("%d-%d-%s-%s" % (b[0], b[1], TYPES[b[2]] if btype else "_", "_" if (b[3] is None or not btype) else b[3]) for b in bonds) or "-"
+    return "%s %s %s %s" % (cs, rs, at, bs)
+
+
+def ienc(it, btype=True):
+    d = it["d"]
+    cids = [c["id"] for c in d["chains"]]
+    res, flat = [], []
+    for ci, c in enumerate(d["chains"]):
+        for r in c["res"]:
+            flat.extend((a, len(res)) for a in r["atoms"])
+            res.append((r["name"], r["resSeq"], r["seg"], ci))
+    atoms = [(flat[pos][0][0], flat[pos][0][1], flat[pos][0][2], flat[pos][1]) for pos in it["order"]]
+    return _ienc(cids, res, atoms, d["bonds"], btype)
+
+
+def idump(top, btype=True, sort_bonds=False):
+    """md.Topology -> the same text, atoms in index order"""
+    chains = list(top.chains)
+    cpos = {id(c): i for i, c in enumerate(chains)}
+    residues = [r for c in chains for r in c.residues]
+    rpos = {id(r): i for i, r in enumerate(residues)}
+    res = [(r.name, int(r.resSeq), r.segment_id or "", cpos[id(r.chain)]) for r in residues]
+    atoms = []
+    for i in range(top.n_atoms):
+        a = top.atom(i)
+        if a.index != i:
+            raise AssertionError("atom(%d).index == %d" % (i, a.index))
+        atoms.append((a.name, a.element.symbol if a.element is not None else "VS", None if a.serial is None else int(a.serial), rpos[id(a.residue)]))
+    bonds = [(b[0].index, b[1].index, None if b.type is None else repr(b.type), None if b.order is None else int(b.order)) for b in top.bonds]
+    if sort_bonds:
+        bonds = sorted((min(b[0], b[1]), max(b[0], b[1]), b[2], b[3]) for b in bonds)
+    return _ienc([c.chain_id for c in chains], res, atoms, bonds, btype)
+
+
+def iatom_cores(text):
+    f = text.split(" ")[2]
+    return [] if f == "=" else [tuple(x.split("^")[:3]) for x in f.split(",")]
+
+
 def parse_pdb_numbers(path):
     serials, conect = [], []
     for line in open(path):
@@ -305,6 +387,94 @@ def run(ctx):
                     viol("pdb|reload-atoms", "save/load .pdb of %s gives %s" % (enc(d), enc(back, bonds=False)), dict(kind=kind, top=enc(d), ter=ter))
         except Exception as e:  # noqa: BLE001
             viol("%s|raises|%s" % (kind, type(e).__name__), "%s on %s raised %s: %s" % (kind, enc(d), type(e).__name__, str(e)[:200]), dict(kind=kind, top=enc(d)))
+
+    # ---- topologies whose atom numbering does not follow the residues (Model/TopoIdx.lean)
+    NI = ctx.n(60, 500)
+    itops = [gen_itop(rng) for _ in range(NI)]
+    ireqs, imeta = [], []
+    for k, it in enumerate(itops):
+        n = len(it["order"])
+        keep = sorted(rng.sample(range(n), rng.randrange(0, n + 1)))
+        ireqs.append("itopsubset %s %s" % (ienc(it), "".join("1" if i in keep else "0" for i in range(n)))); imeta.append(("isubset", k, keep))
+        other = itops[rng.randrange(NI)]
+        keepseq = rng.random() < 0.5
+        ireqs.append("itopjoin %s %s %d" % (ienc(it), ienc(other), 1 if keepseq else 0)); imeta.append(("ijoin", k, (other, keepseq)))
+    imodel = ctx.driver.query(ireqs) if ctx.driver_ok else [None] * len(ireqs)
+    for (kind, k, arg), m in zip(imeta, imodel):
+        it = itops[k]
+        top = build_i(md, it)
+        shuffled = it["order"] != sorted(it["order"])
+        ctx.case(dict(kind=kind, top=ienc(it)) if kind == "isubset" else None, (kind, ienc(it)) if shuffled else None)
+        ctx.count("calls:" + kind + (":interleaved" if shuffled else ":ordered"))
+        rp = dict(kind=kind, top=ienc(it))
+        try:
+            if idump(top) != ienc(it):
+                viol("interleaved|build", "a topology built with add_atom reads back as %s, built as %s" % (idump(top), ienc(it)), rp)
+                continue
+            cores = iatom_cores(ienc(it))
+            if kind == "isubset":
+                got = idump(top.subset(arg))
+                if iatom_cores(got) != [cores[i] for i in arg]:
+                    viol("subset|interleaved-order", "subset(%s) of %s (atoms numbered across the residues): atoms %s, the kept atoms in index order are %s" % (
+                        arg, ienc(it), iatom_cores(got), [cores[i] for i in arg]), dict(rp, keep=arg))
+                if m is not None and m != got:
+                    ctx.broke("correspondence:subset-indexed", "top %s keep %s: impl %s model %s" % (ienc(it), arg, got, m))
+                # the coordinate columns of a trajectory follow the indices
+                xyz = np.zeros((1, top.n_atoms, 3), dtype=np.float32)
+                xyz[0, :, 0] = np.arange(top.n_atoms)
+                tr = md.Trajectory(xyz, top)
+                if arg:
+                    sl = tr.atom_slice(arg)
+                    names = [(sl.topology.atom(j).name, sl.topology.atom(j).residue.name, int(sl.topology.atom(j).residue.resSeq)) for j in range(sl.n_atoms)]
+                    want = [(top.atom(i).name, top.atom(i).residue.name, int(top.atom(i).residue.resSeq)) for i in arg]
+                    if names != want or [int(v) for v in sl.xyz[0, :, 0]] != list(arg):
+                        viol("atom_slice|interleaved-pairing", "atom_slice(%s) of a trajectory over %s pairs columns %s with atoms %s, expected %s" % (
+                            arg, ienc(it), [int(v) for v in sl.xyz[0, :, 0]], names, want), dict(rp, keep=arg))
+                for name, mk in (("copy", lambda t: t.copy()), ("deepcopy", pycopy.deepcopy), ("pickle", lambda t: pickle.loads(pickle.dumps(t)))):
+                    cp = mk(top)
+                    if idump(cp) != ienc(it) or not (cp == top) or hash(cp) != hash(top):
+                        viol("%s|interleaved" % name, "%s of %s gives %s (== source: %s)" % (name, ienc(it), idump(cp), cp == top), dict(rp, op=name))
+                if top.n_atoms:
+                    p = os.path.join(ctx.scratch, "ti.h5")
+                    tr.save(p)
+                    ld = md.load(p)
+                    if idump(ld.topology, btype=False, sort_bonds=True) != idump(top, btype=False, sort_bonds=True) or not np.array_equal(ld.xyz, tr.xyz):
+                        viol("h5|interleaved", "save/load .h5 of %s gives %s" % (ienc(it), idump(ld.topology, btype=False)), dict(rp, op="h5"))
+            else:
+                other, keepseq = arg
+                otop = build_i(md, other)
+                got = idump(top.join(otop, keep_resSeq=keepseq))
+                if iatom_cores(got) != cores + iatom_cores(ienc(other)):
+                    viol("join|interleaved-order", "join of %s and %s: atoms %s" % (ienc(it), ienc(other), iatom_cores(got)), dict(rp, other=ienc(other)))
+                if m is not None and m != got:
+                    ctx.broke("correspondence:join-indexed", "join %s + %s keep=%s: impl %s model %s" % (ienc(it), ienc(other), keepseq, got, m))
+                if top.n_atoms and otop.n_atoms:
+                    xa = np.zeros((1, top.n_atoms, 3), dtype=np.float32); xa[0, :, 0] = np.arange(top.n_atoms)
+                    xb = np.zeros((1, otop.n_atoms, 3), dtype=np.float32); xb[0, :, 0] = 100 + np.arange(otop.n_atoms)
+                    st = md.Trajectory(xa, top).stack(md.Trajectory(xb, otop))
+                    names = [st.topology.atom(j).name for j in range(st.n_atoms)]
+                    want = [top.atom(i).name for i in range(top.n_atoms)] + [otop.atom(i).name for i in range(otop.n_atoms)]
+                    if names != want:
+                        viol("stack|interleaved-pairing", "stack of trajectories over %s and %s: atoms %s, columns follow %s" % (ienc(it), ienc(other), names, want), dict(rp, other=ienc(other)))
+        except Exception as e:  # noqa: BLE001
+            viol("%s|raises|%s" % (kind, type(e).__name__), "%s on %s raised %s: %s" % (kind, ienc(it), type(e).__name__, str(e)[:200]), rp)
+    # .pdb: the file groups the atoms by residue; every atom must come back with its own coordinates
+    for k in range(ctx.n(20, 150)):
+        it = gen_itop(rng, pdb_safe=True)
+        top = build_i(md, it)
+        xyz = np.zeros((1, top.n_atoms, 3), dtype=np.float32)
+        xyz[0, :, 0] = 0.1 * np.arange(top.n_atoms)
+        p = os.path.join(ctx.scratch, "ti.pdb")
+        ctx.case(None, ("ipdb", ienc(it)) if it["order"] != sorted(it["order"]) else None); ctx.count("calls:pdb-interleaved")
+        try:
+            md.Trajectory(xyz, top).save(p)
+            ld = md.load(p, standard_names=False)
+            got = [(a.name, a.residue.name, int(a.residue.resSeq), int(round(float(ld.xyz[0, a.index, 0]) * 10))) for a in ld.topology.atoms]
+            want = [(a.name, r.name, int(r.resSeq), a.index) for c in top.chains for r in c.residues for a in r.atoms]
+            if got != want:
+                viol("pdb|interleaved-pairing", "save/load .pdb of %s: (atom, residue, resSeq, coordinate column) = %s, expected %s" % (ienc(it), got, want), dict(kind="ipdb", top=ienc(it)))
+        except Exception as e:  # noqa: BLE001
+            viol("ipdb|raises|%s" % type(e).__name__, "pdb save/load of %s raised %s: %s" % (ienc(it), type(e).__name__, str(e)[:200]), dict(kind="ipdb", top=ienc(it)))
     for key, (what, rp) in seen.items():
         ctx.violation(key, what, rp)
 
